@@ -87,6 +87,21 @@ out0:
   return copy;
 }
 
+/* the public result of hwloc_propagate_symmetric_subtree (run inside hwloc_discover between the `mem_after` and `final` hook dumps):
+ * "Y <gp_index> <symmetric_subtree> <depth> <arity>" for every normal object, depth-first through the normal children (the objects the
+ * function visits), then "ENDY <caseid>".  The driver answers from Hw.Topo.Restrict.Stage.symmetricStage on the tree of the `final` block. */
+static void dump_sym_obj(FILE *f, hwloc_obj_t o) {
+  fprintf(f, "Y %llu %d %d %u\n", (unsigned long long) o->gp_index, o->symmetric_subtree, o->depth, o->arity);
+  for (hwloc_obj_t c = o->first_child; c; c = c->next_sibling) dump_sym_obj(f, c);
+}
+static void dump_sym(hwloc_topology_t t, const char *caseid) {
+  FILE *f = fopen(dump_path, "a");
+  if (!f) { perror("dump file"); exit(2); }
+  dump_sym_obj(f, hwloc_get_root_obj(t));
+  fprintf(f, "ENDY %s\n", caseid);
+  fclose(f);
+}
+
 /* returns 0 when loaded, 1 when set/load failed cleanly */
 static int run_case(const char *line, const char *caseid, char kind, unsigned long flags, const char *filters, const char *arg) {
   hwloc_topology_t t;
@@ -117,6 +132,7 @@ static int run_case(const char *line, const char *caseid, char kind, unsigned lo
   err = hwloc_topology_load(t);
   free(buf);
   if (err < 0) { hwloc_topology_destroy(t); goto failed0; }
+  dump_sym(t, caseid);
   dump_note("LOADED %s 1\n", caseid);
   hwloc_topology_destroy(t);
   return 0;
